@@ -196,6 +196,18 @@ func c16Log(c *C16Case, r *core.Rec) {
 		return 4 * ref.Eps * (math.Abs(math.Log(math.Abs(x))) + math.Abs(ref.ToF(lmin)) + math.Abs(ref.ToF(lmax)) + 1) / math.Abs(ref.ToF(den))
 	}
 	xs := c16LogXs(c.Min, c.Max)
+	// the whole magnitude range of the right sign: smallest subnormal .. largest finite
+	xs = append(xs, sign*0x1p-1022, sign*1e-300, sign*1e300, sign*math.MaxFloat64)
+	// Subnormal x of the right sign is non-zero, so the result is a number; its value is
+	// not compared (math.Log itself is off by up to 35 on amd64 for subnormals:
+	// math.Log(5e-324) = -709.09), only that it is not NaN and not above Map(2^-1022).
+	for _, x := range []float64{sign * 5e-324, sign * 1e-320, sign * 0x1p-1040} {
+		y, edge := s.Map(x), s.Map(sign*0x1p-1022)
+		r.Trans(1)
+		if math.IsNaN(y) || (c.Max > c.Min) != (sign > 0) && y < edge || (c.Max > c.Min) == (sign > 0) && y > edge {
+			r.Fail("log-subnormal", "Log{%v,%v}.Map(%v)=%v (non-zero value of the right sign; Map(2^-1022)=%v)", c.Min, c.Max, x, y, edge)
+		}
+	}
 	type pt struct{ x, y float64 }
 	var pts []pt
 	for _, x := range xs {
@@ -208,6 +220,9 @@ func c16Log(c *C16Case, r *core.Rec) {
 			r.Fail("log-map", "Log{%v,%v}.Map(%v)=%v, exact %v", c.Min, c.Max, x, y, want)
 		}
 		pts = append(pts, pt{x, y})
+		if ax := math.Abs(x); ax < 1e-290 || ax > 1e290 {
+			continue // Unmap would round in the subnormal range or overflow
+		}
 		back := s.Unmap(y)
 		if !r.Err("log-roundtrip", math.Abs(back-x)/math.Abs(x), 1e-12) {
 			r.Fail("log-roundtrip", "Log{%v,%v}: Unmap(Map(%v))=%v", c.Min, c.Max, x, back)
